@@ -25,6 +25,97 @@ Definition proj (r : res (term * option N * N)) : uobs :=
 (* c_refs (packager with DID-document key references): the DID documents involved, the sender's reference (unused
    for anoncrypt) and the recipients' references as strings; the model then runs packager.PackMessage (pack_msg:
    resolution against the documents, sender id build + split) instead of being handed the resolved keys *)
+(* ---------- primitive contracts ----------
+   The theorems use the term algebra's equations: a key wrap opens exactly under the KEK derived from the same alg,
+   DH secrets (ephemeral, sender, recipient keys), apu, apv and (1PU) tag; the content AEAD opens exactly under the
+   same content key, aad and iv and returns the plaintext.  A primitive case runs the REAL primitive (tinkcrypto
+   WrapKey/UnwrapKey, the composite ECDH AEAD) once unperturbed and once with a single context field perturbed, and
+   the model evaluates the same experiment on terms. *)
+Inductive pfield := PNone | PAlg | PApu | PApv | PTag | PEpk | PSender | PRecipient | PEk
+                  | PAad | PIv | PCt | PCTag | PCek.
+Record prim := { pr_1pu : bool; pr_field : pfield; pr_ok : bool }.
+
+Definition pfield_eqb (a b : pfield) : bool :=
+  match a, b with
+  | PNone, PNone | PAlg, PAlg | PApu, PApu | PApv, PApv | PTag, PTag | PEpk, PEpk | PSender, PSender
+  | PRecipient, PRecipient | PEk, PEk | PAad, PAad | PIv, PIv | PCt, PCt | PCTag, PCTag | PCek, PCek => true
+  | _, _ => false
+  end.
+
+Definition prim_expect (p : prim) : bool :=
+  let f := pr_field p in
+  let is x := pfield_eqb f x in
+  let cek := Kdf [Bytes 908; Bytes 1] in
+  match f with
+  | PAad | PIv | PCt | PCTag | PCek =>
+      let ct := c_enc cek (Bytes 2) (Bytes 3) (Bytes 4) in
+      match c_dec (if is PCek then Kdf [Bytes 908; Bytes 9] else cek) (if is PAad then Bytes 12 else Bytes 2)
+                  (if is PIv then Bytes 13 else Bytes 3) (if is PCt then Junk 1 else ct)
+                  (if is PCTag then Junk 2 else c_tag ct) with
+      | Some m => term_eqb m (Bytes 4)
+      | None => false
+      end
+  | _ =>
+      let e := 10 in let r := 20 in let s := 30 in
+      let w := if pr_1pu p then Wrap (kek_1pu PU_A256KW (dh e r) (dh s r) (Bytes 1) (Bytes 2) (Bytes 3)) cek
+               else Wrap (kek_es ES_A256KW (dh e r) (Bytes 1) (Bytes 2)) cek in
+      let e' := if is PEpk then 11 else e in
+      let r' := if is PRecipient then 21 else r in
+      let s' := if is PSender then 31 else s in
+      let apu := if is PApu then Bytes 11 else Bytes 1 in
+      let apv := if is PApv then Bytes 12 else Bytes 2 in
+      let tag := if is PTag then Bytes 13 else Bytes 3 in
+      let k := if pr_1pu p then kek_1pu (if is PAlg then PU_A128KW else PU_A256KW) (dh r' e') (dh r' s') apu apv tag
+               else kek_es (if is PAlg then ES_XC20PKW else ES_A256KW) (dh r' e') apu apv in
+      match unwrap k (if is PEk then Junk 3 else w) with
+      | Some c => term_eqb c cek
+      | None => false
+      end
+  end.
+
+(* ---------- structural tie: the packers' Crypto.WrapKey calls ----------
+   A recording Crypto service logs every WrapKey call of a pack.  Abstraction of one call: is the resulting alg
+   ECDH-1PU; was apu the sender key id (skid); was apv SHA-256 of the sorted recipient kids; was a tag passed and
+   equal to the envelope's tag; was a sender key handle passed; is the ephemeral key the one of the first call.
+   The same abstraction is read off the key-wrap SUB-TERMS of the model's envelope. *)
+Record wobs := { wo_1pu : bool; wo_apu_skid : bool; wo_apv_kids : bool; wo_tag_jwe : bool; wo_sender : bool;
+                 wo_epk_first : bool }.
+Definition wobs_eqb (a b : wobs) : bool :=
+  Bool.eqb (wo_1pu a) (wo_1pu b) && Bool.eqb (wo_apu_skid a) (wo_apu_skid b) && Bool.eqb (wo_apv_kids a) (wo_apv_kids b)
+  && Bool.eqb (wo_tag_jwe a) (wo_tag_jwe b) && Bool.eqb (wo_sender a) (wo_sender b) && Bool.eqb (wo_epk_first a) (wo_epk_first b).
+
+Definition rec_kid (prot : phdr) (rc : rcp) : option kref :=
+  match r_hdr rc with Some h => rh_kid h | None => p_kid prot end.
+Definition rec_epk (prot : phdr) (rc : rcp) : option term :=
+  match r_hdr rc with Some h => match rh_epk h with Some e => Some e | None => p_epk prot end | None => p_epk prot end.
+
+Definition wobs_of_ek (j : jwe) (prot : phdr) (first_epk : option term) (rc : rcp) : wobs :=
+  let kids := map (fun x => match rec_kid prot x with Some k => k | None => KBad 0 end) (j_recs j) in
+  let epk1 := match first_epk, rec_epk prot rc with Some a, Some b => term_eqb a b | _, _ => false end in
+  match r_ek rc with
+  | Wrap (Kdf [Bytes 903; _; _; _; apu; apv; tag]) _ =>
+      Build_wobs true (match p_skid prot with Some s => term_eqb apu (t_kref s) | None => false end)
+                 (term_eqb apv (apv_1pu kids)) (term_eqb tag (j_tag j)) true epk1
+  | Wrap (Kdf [Bytes 902; _; _; apu; apv]) _ =>
+      Build_wobs false (match p_skid prot with Some s => term_eqb apu (t_kref s) | None => false end)
+                 (term_eqb apv (apv_1pu kids)) false false epk1
+  | _ => Build_wobs false false false false false false
+  end.
+Definition wraps_of (w : wire) : list wobs :=
+  match w with
+  | WJwe j => match j_prot j with
+              | Some prot => map (wobs_of_ek j prot (match j_recs j with rc :: _ => rec_epk prot rc | [] => None end)) (j_recs j)
+              | None => []
+              end
+  | _ => []
+  end.
+Fixpoint wobs_list_eqb (a b : list wobs) : bool :=
+  match a, b with
+  | [], [] => true
+  | x :: a', y :: b' => wobs_eqb x y && wobs_list_eqb a' b'
+  | _, _ => false
+  end.
+
 Record case := { c_cfg : cfg; c_viapk : bool; c_spar : list N; c_payload : N; c_sender : N; c_rcpts : list N;
                  c_refs : option (directory * ref * list ref);
                  (* transport form handed to packager.UnpackMessage (0: the envelope, 1: "<base64url>", 2: padded) and
@@ -35,6 +126,10 @@ Record case := { c_cfg : cfg; c_viapk : bool; c_spar : list N; c_payload : N; c_
                  c_form : N; c_history : bool;
                  (* key types of the keys involved when they are not all of the configuration's type (else []) *)
                  c_kts : list (N * ktype);
+                 (* a primitive-contract case (all other fields unused) *)
+                 c_prim : option prim;
+                 (* the recorded WrapKey calls of the pack (JWE packers; None: not recorded) *)
+                 c_wraps : option (list wobs);
                  c_packed : bool; c_unp : list (list N * uobs) }.
 
 (* randomness names outside the harness's key names (ephemeral keys are key names too) *)
@@ -53,6 +148,7 @@ Fixpoint ktf_of (dflt : ktype) (l : list (N * ktype)) (k : N) : ktype :=
   match l with [] => dflt | (k', t) :: r => if k =? k' then t else ktf_of dflt r k end.
 
 Definition check_case (c : case) : bool :=
+  match c_prim c with Some p => Bool.eqb (pr_ok p) (prim_expect p) | None =>
   match c_refs c with Some (d, _, rrs) => refs_resolve d rrs (c_rcpts c) | None => true end &&
   match (match c_refs c with
          | Some (d, sr, rrs) => pack_msg d (c_cfg c) (c_spar c) (c_payload c) sr rrs rnd0
@@ -64,11 +160,12 @@ Definition check_case (c : case) : bool :=
          end) with
   | Ok w =>
       c_packed c &&
+      match c_wraps c with Some l => wobs_list_eqb l (wraps_of w) | None => true end &&
       forallb (fun po => uobs_eqb (snd po)
                  (proj (if c_viapk c then unpack_pkgr Fixed (fst po) w
                         else unpack Fixed (packer_of (c_cfg c)) (fst po) w))) (c_unp c)
   | _ => negb (c_packed c)
-  end.
+  end end.
 
 Fixpoint mismatches_from (i : nat) (cs : list case) : list nat :=
   match cs with
